@@ -16,7 +16,7 @@ use neurons::tensor::Tensor;
 
 pub fn meta(_ctx: &Ctx) -> Meta {
     Meta {
-        rule: "ALL (N,B,E) with N in 1..6, B in 1..7 (B=1, B not dividing N, B=N, B>N), E in 1..3, plus (N,B) in {(64,64),(65,64),(65,65),(70,128),(130,65),(130,100),(129,64)} x networks {dense-linear on one-hot inputs (sample i touches column i only), dense+bias tanh -> dense, conv -> dense, dense -> feedback[dense]x2 -> dense} x optimizers {SGD, SGDM, Adam, RMSprop} x objectives {MSE, AE}; pairwise different samples; also two consecutive learn() calls on the same network (16 settings x 4 phase pairs). Oracle: reference trainer (consecutive groups in order, per-sample gradients at the pre-step weights summed, one optimizer step per group with step number = epoch, loss = mean over groups of mean per-sample loss) vs learn()'s final weights and returned loss vector. A state is the weight vector after each optimizer step; non-trivial = runs with >= 2 groups or >= 2 samples per group".into(),
+        rule: "ALL (N,B,E) with N in 1..6, B in 1..7 (B=1, B not dividing N, B=N, B>N), E in 1..3, plus a 1024->64->2 network with (N,B) in {(32,32),(40,32),(150,32),(70,64)}, plus (N,B) in {(64,64),(65,64),(65,65),(70,128),(130,65),(130,100),(129,64)} x networks {dense-linear on one-hot inputs (sample i touches column i only), dense+bias tanh -> dense, conv -> dense, dense -> feedback[dense]x2 -> dense} x optimizers {SGD, SGDM, Adam, RMSprop} x objectives {MSE, AE}; pairwise different samples; also two consecutive learn() calls on the same network (16 settings x 4 phase pairs). Oracle: reference trainer (consecutive groups in order, per-sample gradients at the pre-step weights summed, one optimizer step per group with step number = epoch, loss = mean over groups of mean per-sample loss) vs learn()'s final weights and returned loss vector. A state is the weight vector after each optimizer step; non-trivial = runs with >= 2 groups or >= 2 samples per group".into(),
         bound: "N <= 6, B <= 7, E <= 3; complete product".into(),
         exhaustive: true,
         assumptions: vec![
@@ -40,6 +40,8 @@ fn nets() -> Vec<(&'static str, Net)> {
                 vec![L::Conv { f: 2, k: (2, 2), s: (1, 1), p: (0, 0), d: (1, 1), act: Act::Tanh, drop: None }, L::Dense { n: 2, act: Act::Linear, bias: true, drop: None }],
             ),
         ),
+        // 1024 -> 64: 65 600 parameters (beyond any small per-batch memory heuristic)
+        ("wide", Net::new(Dims::Flat(1024), vec![L::Dense { n: 64, act: Act::Tanh, bias: true, drop: None }, L::Dense { n: 2, act: Act::Linear, bias: true, drop: None }])),
         (
             "fb",
             Net::new(
@@ -52,6 +54,10 @@ fn nets() -> Vec<(&'static str, Net)> {
             ),
         ),
     ]
+}
+
+fn n_in_wide(net: &Net) -> bool {
+    net.input.count() > 100
 }
 
 fn opts() -> Vec<OptSpec> {
@@ -152,7 +158,7 @@ pub fn check(seed: u64, case: &Kv, rep: &mut Report) {
     let params0: Vec<P<f32>> = if onehot {
         params_for(&net, &shapes, Valuation::Dyadic, seed, &key)
     } else {
-        params_for(&net, &shapes, Valuation::Generic, seed, &key).iter().map(|p| p.map(&|v| v * 0.5)).collect()
+        params_for(&net, &shapes, Valuation::Generic, seed, &key).iter().map(|p| p.map(&|v| v * if n_in_wide(&net) { 0.02 } else { 0.5 })).collect()
     };
     let mut r = Rng::new(seed, fnv(&key) ^ 0x8888);
     let n_in = net.input.count();
@@ -353,6 +359,9 @@ pub fn check(seed: u64, case: &Kv, rep: &mut Report) {
 pub fn cases() -> Vec<Kv> {
     let mut out = Vec::new();
     for (name, _) in nets() {
+        if name == "wide" {
+            continue;
+        }
         for ospec in opts() {
             for o in [Obj::MSE, Obj::AE] {
                 for n in 1..=6usize {
@@ -368,11 +377,18 @@ pub fn cases() -> Vec<Kv> {
     // two consecutive learn() calls on the same network: the optimizer's running statistics carry over, the step
     // numbers start again at 1
     for (name, _) in nets() {
+        if name == "wide" {
+            continue;
+        }
         for ospec in opts() {
             for (n, b, e, b2, e2) in [(5usize, 2usize, 1usize, 3usize, 2usize), (4, 4, 2, 1, 1), (3, 2, 2, 2, 2), (6, 7, 1, 4, 1)] {
                 out.push(Kv::new().put("net", name).put("opt", ospec.name()).put("obj", "MSE").put("n", n).put("b", b).put("e", e).put("b2", b2).put("e2", e2));
             }
         }
+    }
+    // a wide layer with ordinary batch sizes (32, 64) and 150 samples
+    for (n, b, e) in [(32usize, 32usize, 1usize), (40, 32, 2), (150, 32, 1), (70, 64, 1)] {
+        out.push(Kv::new().put("net", "wide").put("opt", opts()[0].name()).put("obj", "MSE").put("n", n).put("b", b).put("e", e));
     }
     // groups larger than the internal evaluation chunk size (64): N and B around and above it
     for ospec in [opts()[0], opts()[2]] {
